@@ -72,33 +72,36 @@ func genCase(via string) *rapid.Generator[hist] {
 			c.StartNs = rapid.Int64Range(0, W-1).Draw(t, "start_ns")
 		}
 		c.Gap = rapid.SampledFrom([]string{"none", "some", "some", "all"}).Draw(t, "gap")
-		n := rapid.IntRange(1, 28).Draw(t, "n")
-		steps := make([]step, 0, n)
-		for i := 0; i < n; i++ {
-			ops := []string{"arrive", "arrive", "arrive", "arrive", "arrive", "fire", "fire", "fire", "adv", "adv"}
-			if c.Gap != "none" {
-				ops = append(ops, "proceed", "proceed")
-			}
-			op := rapid.SampledFrom(ops).Draw(t, "op")
-			s := step{Op: op}
-			switch op {
-			case "arrive":
-				s.Prio = rapid.IntRange(0, 2).Draw(t, "prio")
-				s.TTLw = rapid.IntRange(1, 3).Draw(t, "ttl")
-				switch c.Gap {
-				case "all":
-					s.Stay = true
-				case "some":
-					s.Stay = rapid.Bool().Draw(t, "stay")
-				}
-			case "proceed", "fire":
-				s.Pick = rapid.IntRange(0, 5).Draw(t, "pick")
-			case "adv":
-				s.Adv = rapid.IntRange(0, 4).Draw(t, "adv")
-			}
-			steps = append(steps, s)
-		}
+		g := genStep(c.Gap)
+		// mostly long schedules; the short alternative comes first so that shrinking ends there
+		steps := rapid.OneOf(rapid.SliceOfN(g, 1, 10), rapid.SliceOfN(g, 10, 30), rapid.SliceOfN(g, 10, 30), rapid.SliceOfN(g, 10, 30)).Draw(t, "steps")
 		return hist{Config: c, Steps: steps}
+	})
+}
+
+func genStep(gap string) *rapid.Generator[step] {
+	ops := []string{"arrive", "arrive", "arrive", "arrive", "arrive", "fire", "fire", "fire", "adv", "adv"}
+	if gap != "none" {
+		ops = append(ops, "proceed", "proceed")
+	}
+	return rapid.Custom(func(t *rapid.T) step {
+		s := step{Op: rapid.SampledFrom(ops).Draw(t, "op")}
+		switch s.Op {
+		case "arrive":
+			s.Prio = rapid.IntRange(0, 2).Draw(t, "prio")
+			s.TTLw = rapid.IntRange(1, 3).Draw(t, "ttl")
+			switch gap {
+			case "all":
+				s.Stay = true
+			case "some":
+				s.Stay = rapid.Bool().Draw(t, "stay")
+			}
+		case "proceed", "fire":
+			s.Pick = rapid.IntRange(0, 5).Draw(t, "pick")
+		case "adv":
+			s.Adv = rapid.IntRange(0, 4).Draw(t, "adv")
+		}
+		return s
 	})
 }
 
